@@ -1,4 +1,26 @@
 TEXTS = {
+    "C16": {
+        "text": "Machine-checked Lean 4 theorems about systems of any number of actors with any parent -> child graph "
+                "(Model/Sys.lean: every system step is made of steps of the single-actor model): C16_kept - in every "
+                "reachable system state every handle registered with add_child / register_child is a live Sender in "
+                "the child's handle table and its owner has not terminated; C16_released - the step that ends a "
+                "parent's task (graceful or not) removes all its registrations and drops exactly those handles in the "
+                "children; sys_actor_run - what happens to any one actor inside any system run is a run of the "
+                "single-actor model over its projection (own events, a drop of the parent's handle at the parent's "
+                "end, one forced submission per registration at a broadcast), so every single-actor theorem holds of "
+                "every actor of every system, recursively down any hierarchy; C16_lifetime - C05 for every actor of "
+                "every system (a child's final stopped() begins only if it was asked to stop, failed, its stream ended "
+                "or no strong handle is left); C16_broadcast - a broadcast is taken up only by an actor registered "
+                "under its type with the broadcasting parent when it was sent, at most once per registration. The "
+                "system model is tied to the code by acceptance of whole multi-actor traces (trees up to depth 3 / 6 "
+                "nodes, children under two message types and add_child, some also held from outside, parents ending "
+                "by every cause).",
+        "design_ref": "DESIGN.md §5 C16",
+        "note": "Partial: exactly-once delivery to live children and graceful stop of released children by quiescence "
+                "are trace-checked (monC16q, monC05q on projections). Trusted: Lean kernel + axioms; Model/Sys.lean "
+                "validated by multi-actor trace acceptance.",
+        "technique": "Lean 4 proof (system invariant + projection theorem lifting all single-actor theorems + mailbox counting) + checked multi-actor trace correspondence",
+    },
     "C01": {
         "text": "Machine-checked Lean 4 theorem C01_holds (no wiring hypothesis): every run of the actor model whose "
                 "message numbers and operation ids are fresh (wf01, a decidable trace predicate checked on every real "
@@ -274,5 +296,5 @@ TEXTS = {
 _PENDING = "check under construction in this round: model + theorem not yet wired into ./check (see DESIGN.md build order); not claimed until its three obligations run end to end"
 NOT_APPLICABLE = [
     {"property_id": p, "reason": _PENDING}
-    for p in ["C09", "C16"]
+    for p in ["C09"]
 ]
